@@ -36,6 +36,9 @@ def run(model, rep, tier):
     from . import lifetime
     rep.rule('C05.R8', "each run sees only its own inputs (rules/lifetime.py): no function of the package is memoised across runs (functools.lru_cache / cache), module-level containers that functions add to are emptied at the start of a run, no mutable class attribute is shared through instances (mutated in place or handed out without being re-bound per instance), and no option with a mutable argparse default is mutated in place after parsing -- a second run in the same process (other layer objects under the same names, other outcomes, other filters) must not inherit the first run's state")
     lifetime.check(ctx, rep, 'C05.R8')
+    r9_setup_before_anything_fallible(ctx, rep)
+    from . import robust
+    robust.asserts_have_no_effects(ctx, rep, 'C05.R20', 'C05')
     rep.units['cfg'] = ctx.cfg_stats
 
 
@@ -164,3 +167,91 @@ def r4_who_may_call(ctx, rep):
         rep.check(k == 1, R, 'exactly one %s site' % h, 'found %d sites' % k, key='count:' + h,
                   func=allowed[h])
     rep.floor(R, sum(found.values()), 2, 'hook call sites')
+
+
+def r9_setup_before_anything_fallible(ctx, rep, R='C05.R9'):
+    """Both unittest drivers run stopTest -- and with it every layer's testTearDown -- once startTest
+    (or the addSkip fallback) was ENTERED, also when it raised.  So the layers' testSetUp must be the
+    first thing in it that can fail for reasons outside the runner: a formatter call (encoding error
+    for the test id, broken pipe on flush) or a call into the test object that comes first and raises
+    leaves every layer with a testTearDown that has no matching testSetUp."""
+    rep.rule(R, 'no testTearDown without the matching testSetUp when announcing the test fails: in '
+             'startTest, and in the branch of addSkip that stands in for a missing startTest, every path '
+             'from the entry to a call of the formatter or into the test object (other than reading '
+             'its __dict__) passes the call of self.testSetUp() first')
+    m = ctx.model
+    cls = m.cls(tsrules.RESULT_CLASS)
+    n = 0
+    for mname in ('startTest', 'addSkip'):
+        fi = m.find_method(cls, mname)
+        if fi is None:
+            continue
+        g = ctx.cfg(fi)
+        ps = params(fi)
+        test_p = ps[1] if len(ps) > 1 else 'test'
+
+        def fallible(c):
+            if not isinstance(c, ast.Call):
+                return False
+            d = dotted(c.func) or ''
+            if isinstance(c.func, ast.Attribute) and ctx.cg.is_formatter_receiver(c.func.value, fi):
+                return True
+            if d.startswith(test_p + '.') and not d.startswith(test_p + '.__dict__'):
+                return True
+            if d in ('str', 'repr') and c.args and is_name(c.args[0], test_p):
+                return True
+            return False
+        setup = nodes_calling_(g, lambda c: dotted(c.func) == 'self.testSetUp')
+        bad = nodes_calling_(g, fallible)
+        if mname == 'startTest':
+            starts, incl = [g.entry], True
+        else:
+            starts = []
+            for nd in g.nodes:
+                if nd.kind != 'test' or "hasattr(self, '_test_state')" not in norm(nd.ast):
+                    continue
+                pos = True
+                t = nd.ast
+                while isinstance(t, ast.UnaryOp) and isinstance(t.op, ast.Not):
+                    pos = not pos
+                    t = t.operand
+                if not (isinstance(t, ast.Call) and dotted(t.func) == 'hasattr'):
+                    continue
+                want = 'false' if pos else 'true'
+                starts += [d_ for d_, k_ in g.succ[nd.id] if k_ == want]
+            incl = True
+            # only what the fallback branch itself does: stop at the join with the other branch
+            if not starts:
+                rep.undecide(R, 'addSkip: the branch for a missing startTest was not recognised '
+                             "(no test of hasattr(self, '_test_state'))", where=ctx.where(fi, fi.node))
+                continue
+        if not setup:
+            rep.check(False, R, '%s calls self.testSetUp()' % mname,
+                      '%s does not call self.testSetUp()' % fi.qualname, key='setup-first:' + mname,
+                      func=fi.qualname, where=ctx.where(fi, fi.node))
+            continue
+        # fallible calls that can be reached from the start without passing testSetUp
+        r = g.reach(starts, avoid=set(setup), include_start=incl,
+                    edge_ok=lambda s_, d_, k_: k_ != 'exc')
+        early = [b for b in bad if b in r]
+        if mname == 'addSkip':
+            # nodes also reachable from the OTHER branch without the fallback are not the fallback's
+            other = []
+            for nd in g.nodes:
+                if nd.kind == 'test' and "hasattr(self, '_test_state')" in norm(nd.ast):
+                    other += [d_ for d_, k_ in g.succ[nd.id] if d_ not in starts and k_ in ('true', 'false')]
+            ro = g.reach(other, include_start=True, edge_ok=lambda s_, d_, k_: k_ != 'exc')
+            early = [b for b in early if b not in ro]
+        n += 1
+        rep.check(not early, R, '%s: testSetUp precedes every formatter / test-object call' % mname,
+                  '%s reaches %s before self.testSetUp(): when that call raises, the driver still runs '
+                  'stopTest and every layer gets testTearDown without testSetUp' % (
+                      fi.qualname, norm(g.node(early[0]).ast)[:60] if early else ''),
+                  key='setup-first:' + mname, func=fi.qualname,
+                  where=ctx.where(fi, g.node(early[0]).ast) if early else ctx.where(fi, fi.node))
+    rep.floor(R, n, 2, 'entry points of the per-test bracket (startTest, addSkip fallback)')
+
+
+def nodes_calling_(g, pred):
+    from .common import nodes_calling
+    return nodes_calling(g, pred)
